@@ -308,6 +308,49 @@ def immut(pa, pA, a, s):
 '''
 
 
+UDH_SETUP = '''
+import dataclasses, itertools
+from typing import Union, Optional
+from adaptix import Retort
+# a diamond below a union of classes: Right is a Base, Left is a Base, Both is a Left and a Right; the union lists Base and Right (and a sibling hierarchy)
+@dataclasses.dataclass
+class UBase:
+    a: int
+@dataclasses.dataclass
+class URight(UBase):
+    b: int = 2
+@dataclasses.dataclass
+class ULeft(UBase):
+    pass
+@dataclasses.dataclass
+class UBoth(ULeft, URight):
+    pass
+@dataclasses.dataclass
+class UBothSub(UBoth):
+    pass
+@dataclasses.dataclass
+class UOther:
+    z: int
+@dataclasses.dataclass
+class UOtherSub(UOther):
+    pass
+U_HINTS = {"base_right": Union[UBase, URight], "right_base_other": Union[URight, UBase, UOther], "opt": Optional[Union[UBase, URight]]}
+def u_objects(v): return [UBase(v), URight(v, v + 1), ULeft(v), UBoth(v, v + 2), UBothSub(v, v + 3), UOtherSub(v)]
+def u_fresh(hint, obj):
+    try: return ("ok", Retort().get_dumper(U_HINTS[hint])(obj))
+    except Exception as e: return ("err", type(e).__name__)
+def u_history(hint, order, v):
+    # dumping objects of related classes through ONE dumper, in any order, gives what a fresh dumper gives for each of them
+    dp = Retort().get_dumper(U_HINTS[hint])
+    objs = u_objects(v)
+    for i in order:
+        try: got = ("ok", dp(objs[i]))
+        except Exception as e: got = ("err", type(e).__name__)
+        if got != u_fresh(hint, objs[i]): return False
+    return True
+'''
+
+
 def build(tier, seed):
     quick = tier == "quick"
     tmo = 120 if quick else 400
@@ -337,6 +380,23 @@ def build(tier, seed):
     mi.ob("clones_recursive", "a: int, b: int, c: int, n: int, c0: int", "return clones_recursive(a, b, c, n, c0)",
           pre=["0 <= n <= 2", "0 <= c0 < 4"], timeout=tmo, family="immutability: clones and recursive models",
           bounds="List[Node] / Optional[Node] with Node.children: List[Node], requested on a retort, its extend() and replace() clones; data nested 3 levels; any ints, str len<=2 over '01a-'")
+    mu = Module("c11_udh").pre(UDH_SETUP)
+    mu.nat("union_dump_history", '''
+def nat_union_dump_history():
+    ev, bad = 0, []
+    for hint in U_HINTS:
+        for order in itertools.permutations(range(6), 3):
+            for v in (0, 7):
+                ev += 1
+                if not u_history(hint, order, v): bad.append({"hint": repr(hint), "order": repr(order), "v": str(v)})
+    return {"status": "REFUTED" if bad else "CONFIRMED", "cexs": bad[:5], "evaluations": ev,
+            "note": "labelled enumeration of call histories (no data dimension beyond the payload): every ordered triple of 6 related classes"}
+
+def chk_union_dump_history(hint, order, v):
+    return u_history(hint, order, v)
+''', timeout=300, family="union dumpers keep no history: class dispatch of an already obtained dumper (labelled enumeration of call orders)",
+           bounds="3 union hints over a diamond hierarchy (Base, Right(Base), Left(Base), Both(Left, Right), a subclass of Both, a sibling hierarchy); "
+                  "every ordered triple of the 6 classes dumped through one dumper, each result compared with a fresh dumper")
     from props.C13 import build as build_c13
     for m13 in build_c13(tier, seed).modules:
         m13.obs = [o for o in m13.obs if o.name == "history"]
@@ -345,7 +405,7 @@ def build(tier, seed):
     for m10 in build_c10(tier, seed).modules:
         if m10.key == "c10_multi":
             mods.append(m10)
-    return Plan("C11", mods + [mk, mi],
+    return Plan("C11", mods + [mk, mi, mu],
                 assumptions=["histories are enumerated natively (bounded family, stated as enumeration); the datum is symbolic",
                              "cached_call sites whose arguments are closures/enums/bools/classes are argued by identity; only the Literal site takes values"],
                 bounds={"pool": "43 types", "history length": "1 (all), 2 (confusable sub-pools)"},
